@@ -138,6 +138,11 @@ def check(ctx, kind, store, header, nrows, bad_at, bad_kind, limit, api):
             ctx.count("validate.rows-pulled", yields)
             if limit is not None and yields > limit:
                 ctx.violation("C07:validate:pulled-more-than-limit", case, "validate() pulled more rows out of Reader.rows than the limit", expected=limit, observed=yields)
+            if limit is not None and raised is None and yields != min(limit, max(0, len(raw) - model.header)):
+                # "stops after N data rows": not earlier either (what lies before that point is read, and a container
+                # that is malformed there is noticed)
+                ctx.violation("C07:validate:stopped-before-the-limit", case, "validate() pulled fewer data rows out of Reader.rows than the limit and the data allow",
+                              expected=min(limit, max(0, len(raw) - model.header)), observed=yields)
             # validate() reads at most `limit` *data* rows: an offending row beyond them is never reached
             reachable = first_error is not None and (limit is None or (first_error[1] - model.header) <= limit)
             if reachable and raised is None:
